@@ -213,7 +213,7 @@ func failurePoint(r *drun) int {
 func c09Oracle(x *dialogx) func(c *dcase, r *drun, base *drun) {
 	return func(c *dcase, r *drun, base *drun) {
 		sc := c.sc
-		compare := sc.front == "drc-C" || sc.front == "drc-C-nolog" || sc.front == "do-compare"
+		compare := strings.HasPrefix(sc.front, "drc-C") || strings.HasPrefix(sc.front, "do-compare")
 		viaDo := strings.HasPrefix(sc.front, "do-")
 		if r.panicMsg != "" {
 			x.violation(c, r, "no-panic", "panic", "runtime panic: "+r.panicMsg)
@@ -312,7 +312,7 @@ func c09Oracle(x *dialogx) func(c *dcase, r *drun, base *drun) {
 func c09Scenarios(devTypes []string) []*dscenario {
 	var l []*dscenario
 	for _, t := range devTypes {
-		for _, f := range []string{"drc", "do-approve", "drc-C", "do-compare"} {
+		for _, f := range []string{"drc", "do-approve", "drc-C", "do-compare", "drc-q", "do-approve-brief", "do-compare-brief", "drc-logfile"} {
 			l = append(l, baseScenario(t, f))
 		}
 	}
@@ -376,7 +376,7 @@ func c11Oracle(x *dialogx) func(c *dcase, r *drun, base *drun) {
 func c11Scenarios() []*dscenario {
 	var l []*dscenario
 	for _, t := range allDevTypes {
-		for _, f := range []string{"drc-C", "drc-C-nolog", "do-compare"} {
+		for _, f := range []string{"drc-C", "drc-C-nolog", "do-compare", "drc-C-q", "do-compare-brief"} {
 			// interlocks: ok, missing marker, wrong hostname
 			sc := baseScenario(t, f)
 			l = append(l, sc)
